@@ -261,6 +261,8 @@ def ts(t):
             return "/* a comment */ " + ts(t["a"]) + " // trailing\n"
         if d == "jsdoc":
             return ts(t["a"])      # the doc comment itself is printed by _members in front of the key
+        if d == "jsdocm":      # a documented member of an intersection / union: the comment stands on its own line before the member
+            return "\n/** documented member */\n" + ts(t["a"])
         if d == "labels":       # a labeled tuple: [e0: T0, e1: T1, ...rest: Array<R>]
             a = t["a"]
             if a["t"] != "tuple":
